@@ -7,6 +7,7 @@ import (
 	"errors"
 	"fmt"
 	"sync"
+	"time"
 
 	"github.com/enbility/go-avahi"
 	dbus "github.com/godbus/dbus/v5"
@@ -85,17 +86,18 @@ type fakeBrowser struct {
 // explicit Shutdown) frees every server-side object and emits Disconnected on
 // a new goroutine.
 type FakeAvahi struct {
-	mu        sync.Mutex
-	Available bool // the daemon can be reached
-	connected bool
-	gen       int
-	cb        avahi.EventCB
-	groups    []*fakeGroup
-	browsers  []*fakeBrowser
-	known     map[string]avahi.Service // resolvable services by name
-	holdNext  bool                     // the next ResolveService call blocks until ReleaseResolve
-	holdCh    chan struct{}
-	Holding   bool
+	mu         sync.Mutex
+	Available  bool // the daemon can be reached
+	connected  bool
+	gen        int
+	cb         avahi.EventCB
+	groups     []*fakeGroup
+	browsers   []*fakeBrowser
+	known      map[string]avahi.Service // resolvable services by name
+	emitOnFree *avahi.Service
+	holdNext   bool // the next ResolveService call blocks until ReleaseResolve
+	holdCh     chan struct{}
+	Holding    bool
 
 	SetupCalls, SetupOK  int
 	BrowserNew, GroupNew int
@@ -217,10 +219,35 @@ func (s *FakeAvahi) ServiceBrowserNew(addChan, removeChan chan avahi.Service, if
 
 func (s *FakeAvahi) ServiceBrowserFree(r avahi.ServiceBrowserInterface) {
 	s.mu.Lock()
-	defer s.mu.Unlock()
-	if b, ok := r.(*fakeBrowser); ok && b != nil {
+	b, _ := r.(*fakeBrowser)
+	emit := s.emitOnFree
+	s.emitOnFree = nil
+	live := b != nil && !b.Freed && b.gen == s.gen && s.connected
+	if emit != nil && live {
+		s.known[emit.Name] = *emit
+	}
+	s.mu.Unlock()
+	if emit != nil && live {
+		// a service is found at the very moment the browser is being given up: the daemon delivers it
+		// before the free call returns (the client still listens on the channel)
+		brief := avahi.Service{Interface: emit.Interface, Protocol: emit.Protocol, Name: emit.Name, Type: emit.Type, Domain: emit.Domain}
+		select {
+		case b.add <- brief:
+		case <-time.After(time.Second):
+		}
+	}
+	s.mu.Lock()
+	if b != nil {
 		b.Freed = true
 	}
+	s.mu.Unlock()
+}
+
+// EmitOnFree: the next ServiceBrowserFree call delivers this service before it returns.
+func (s *FakeAvahi) EmitOnFree(svc avahi.Service) {
+	s.mu.Lock()
+	s.emitOnFree = &svc
+	s.mu.Unlock()
 }
 
 func (s *FakeAvahi) ResolveService(iface, protocol int32, name, serviceType, domain string, aprotocol int32, flags uint32) (avahi.Service, error) {
